@@ -465,10 +465,15 @@ def gen_inference_spec(tape, disc_kinds=('disc', 'dist'), max_priors=3, extra_sh
         width = sum(int(np.prod(n['cfg']['shape'])) if n['cfg']['shape'] else 1
                     for n in nodes if n['kind'] == 'sum')
         metric = tape.choice('metric', ['euclidean', 'cityblock', 'chebyshev', 'minkowski',
-                                        'seuclidean', 'mahalanobis', 'sqeuclidean'])
+                                        'seuclidean', 'mahalanobis', 'sqeuclidean', 'canberra',
+                                        'braycurtis'])
         kw = {}
         if metric == 'minkowski':
             kw['p'] = tape.choice('mink_p', [1, 2, 3, 1.5])
+        if metric in ('euclidean', 'cityblock', 'chebyshev', 'minkowski', 'sqeuclidean',
+                      'canberra') and tape.chance('metric_weights', 1, 3):
+            # per-column weights are one of the keyword arguments Distance hands to cdist
+            kw['w'] = np.array([0.25 + 0.5 * ((i * 5) % 4) for i in range(width)])
         elif metric == 'seuclidean':
             kw['V'] = np.array([0.5 + 0.25 * ((i * 3) % 5) for i in range(width)])
         elif metric == 'mahalanobis':
